@@ -165,6 +165,8 @@ pub enum RxMeta {
     PingResp,
     Disconnect,
     Garbage,
+    /// bytes that may be an incomplete packet (followed by EOF)
+    Partial,
 }
 
 pub struct ConnState {
@@ -226,6 +228,11 @@ pub struct ConnState {
     pub pending_offer: Option<Vec<u8>>,
     pub eof_read: bool,
     pub bytes_moved: u64,
+    /// acks completely written but whose flush has not completed (client may re-send them)
+    pub unflushed_acks: VecDeque<(u8, u16, Option<u8>)>,
+    pub outstanding_at_last_complete: bool,
+    pub disconnect_cancelled: bool,
+    pub t_connack_consumed: Option<u64>,
 }
 
 impl ConnState {
@@ -277,6 +284,10 @@ impl ConnState {
             pending_offer: None,
             eof_read: false,
             bytes_moved: 0,
+            unflushed_acks: VecDeque::new(),
+            outstanding_at_last_complete: false,
+            disconnect_cancelled: false,
+            t_connack_consumed: None,
         }
     }
     pub fn io_calls(&self) -> u64 {
@@ -335,6 +346,8 @@ pub struct Req {
     /// status can no longer be predicted (ambiguous CONNACK, identifier collision)
     pub ambiguous: bool,
     pub is_probe: bool,
+    /// C19: MQTT 5 forbids this request; it must never be accepted
+    pub must_refuse: bool,
 }
 
 /// A message the broker sends to the client.
@@ -366,6 +379,8 @@ pub enum Expect {
     Reject(u8),
     Disconnected,
     Invalid,
+    /// malformed or incomplete bytes followed by EOF: either outcome is right
+    InvalidOrEof,
 }
 
 // ------------------------------------------------------------------ events
@@ -449,6 +464,7 @@ pub struct World {
     pub benign: bool,
     pub op_label: &'static str,
     pub sim_time_max: u64,
+    pub qos0_cancelled: bool,
     pub trace_hash: u64,
 }
 
@@ -505,6 +521,7 @@ impl World {
             benign: false,
             op_label: "",
             sim_time_max: 0,
+            qos0_cancelled: false,
             trace_hash: 0x9E3779B97F4A7C15,
         }
     }
@@ -580,8 +597,12 @@ impl World {
                 }
                 let mut off = c.rx_total_enqueued;
                 for (len, meta) in metas {
+                    // malformed bytes are "received" as soon as the client has read the first of
+                    // them: it may legitimately stop reading before the end
+                    let eager = matches!(meta, RxMeta::Garbage | RxMeta::Partial);
+                    let end = if eager { off + 1 } else { off + len };
                     off += len;
-                    c.rx_items.push_back(RxItem { end: off, meta });
+                    c.rx_items.push_back(RxItem { end, meta });
                 }
                 c.rx_total_enqueued += bytes.len();
                 c.rx_ready.extend(bytes.iter());
@@ -637,9 +658,16 @@ impl World {
             if c.parsed != c.wire.len() && !(rem.starts_with(buf) || buf.starts_with(&rem)) {
                 let inside = crate::codec::type_name_of(c.wire[c.parsed] >> 4);
                 let newp = crate::codec::type_name_of(buf[0] >> 4);
+                let sig = if c.disconnect_cancelled && inside == "DISCONNECT" {
+                    "packet-inside-packet/interrupted=DISCONNECT/after-cancelled-disconnect".to_string()
+                } else if self.op_label == "disconnect" && newp == "DISCONNECT" {
+                    "packet-inside-packet/op=disconnect,starts=DISCONNECT".to_string()
+                } else {
+                    format!("packet-inside-packet/op={},interrupted={},starts={}", self.op_label, inside, newp)
+                };
                 self.violate(
                     "C01",
-                    format!("packet-inside-packet/op={},interrupted={},starts={}", self.op_label, inside, newp),
+                    sig,
                     format!(
                         "transport is {} bytes into a {} packet; client now offers {} instead of the remainder {}",
                         c.wire.len() - c.parsed,
@@ -648,6 +676,9 @@ impl World {
                         crate::util::hex(&rem)
                     ),
                 );
+                // the byte stream is unusable from here on: verdicts up to this point stand
+                self.conns[conn].wire_broken = true;
+                self.cut = true;
             }
         }
         if let Some(e) = self.conns[conn].io_error {
@@ -723,6 +754,12 @@ impl World {
         }
         self.kind(6);
         self.log(|| "flush -> Ok".to_string());
+        self.conns[conn].bytes_moved += 1; // a completed flush is wire progress too
+        // disconnect() flushes the transport without advancing the client's own per-packet
+        // flush bookkeeping: such acknowledgements may legitimately be re-sent after a resume
+        if self.op_label != "disconnect" {
+            self.conns[conn].unflushed_acks.clear();
+        }
         self.on_flush(conn);
         Poll::Ready(Ok(()))
     }
@@ -843,9 +880,10 @@ impl World {
     fn accept_bytes(&mut self, conn: usize, bytes: &[u8]) {
         let c = &mut self.conns[conn];
         if c.saw_disconnect && !bytes.is_empty() {
+            let ctx = if c.disconnect_cancelled { "after-cancelled-disconnect".to_string() } else { format!("op={}", self.op_label) };
             self.violate(
                 "C01",
-                format!("bytes-after-disconnect/op={}", self.op_label),
+                format!("bytes-after-disconnect/{ctx}"),
                 format!("{} bytes written after DISCONNECT", bytes.len()),
             );
         }
